@@ -5,7 +5,7 @@ import json, os, sys
 V = os.path.dirname(os.path.dirname(os.path.abspath(__file__)))
 sys.path.insert(0, "/repo"); sys.path.insert(0, V)
 from pyvc.eff import Analyzer
-from pyvc.elite import classify
+from pyvc.elite import classify, classify_len
 from pyvc import bnd
 an = Analyzer(); an.run()
 excluded = sorted(c for c, v in an.c12_readers.items() if v)
@@ -30,7 +30,8 @@ for r in recs:
 failing = sorted([list(k) for k, v in pairs.items() if all(v)])
 known_exc = sorted({(r["case"]["opt"], r["exc"]["type"]) for r in recs if r.get("exc") and r["case"]["kind"] in bnd.CONT})
 mono = sorted(c for c in el if c not in nonmono and c not in elitist)
-out = {"C12_excluded": excluded, "elitist": elitist, "monotone_in_campaign_not_structural": mono, "non_monotone_observed": sorted(nonmono), "structurally_elitist_but_not_monotone_in_campaign": dropped,
+lens = classify_len(an.src)
+out = {"len_structural": sorted(c for c, v in lens.items() if v[0]), "C12_excluded": excluded, "elitist": elitist, "monotone_in_campaign_not_structural": mono, "non_monotone_observed": sorted(nonmono), "structurally_elitist_but_not_monotone_in_campaign": dropped,
        "C06_intcoded_failing_pairs": failing, "C06_known_exceptions": [list(x) for x in known_exc]}
 json.dump(out, open(os.path.join(V, "expectations.json"), "w"), indent=1)
 print("C12 excluded", excluded); print("elitist", len(elitist), "dropped (non-monotone)", dropped); print("failing int-coded pairs", len(failing)); print("known exc", known_exc)
